@@ -92,7 +92,10 @@ def run_case(case, host_kind=None, decorate=None, on_step=None):
   reports = []
   if start.aspect:
     return reports, start, model, rt, chart
+  queries = case.get("queries") or {}
   for idx, sig in enumerate(case["events"]):
+    for q in queries.get(str(idx), ()):
+      run_query(chart, rt, q)
     rt.clear()
     res = model.step(sig)
     rep = StepReport(idx, sig, res)
@@ -137,6 +140,23 @@ def run_case(case, host_kind=None, decorate=None, on_step=None):
     if rep.aspect:
       break
   return reports, start, model, rt, chart
+
+
+def run_query(chart, rt, q):
+  """Between-step query; returns ("ok", value) or ("raised", type name)."""
+  fn = chart.top if q[1] == TOP else rt.fns[q[1]]
+  try:
+    if q[0] == "is_in":
+      return ("ok", bool(chart.is_in(fn)))
+    r = chart.child_state(fn)
+    for i, f in enumerate(rt.fns):
+      if r == f:
+        return ("ok", i)
+    return ("ok", "top" if r == chart.top else repr(r))
+  except HarnessBound:
+    raise
+  except Exception as e:
+    return ("raised", type(e).__name__)
 
 
 def small_forests(max_n):
